@@ -250,7 +250,7 @@ def split_trace(path, workdir, name, chunks):
     cur = []
     with open(path) as f:
         for line in f:
-            if '"op":"reset"' in line.replace(" ", "")[:400] or '"op": "reset"' in line[:400]:
+            if '"op":"reset"' in line:
                 if cur:
                     groups.append(cur)
                 cur = [line]
